@@ -938,3 +938,20 @@ func VerifMatcherHistoryOpts(sets [][]string, reqs []VerifHistReq, tac bool, fuz
 	m.Stop()
 	return out
 }
+
+// VerifBuildPatternRev is VerifBuildPattern for a later minor revision of the input (what
+// change-nth, exclude and --tail trimming produce): items matched before keep whatever they
+// cached under the earlier revision.
+func VerifBuildPatternRev(fuzzy bool, v2 bool, extended bool, caseMode Case, normalize bool, forward bool, withPos bool,
+	cacheable bool, nth []Range, delimiter Delimiter, runes []rune, minor int) *Pattern {
+	fuzzyAlgo := algo.FuzzyMatchV1
+	if v2 {
+		fuzzyAlgo = algo.FuzzyMatchV2
+	}
+	rev := revision{}
+	for i := 0; i < minor; i++ {
+		rev.bumpMinor()
+	}
+	return BuildPattern(NewChunkCache(), make(map[string]*Pattern), fuzzy, fuzzyAlgo, extended, caseMode, normalize, forward,
+		withPos, cacheable, nth, delimiter, rev, runes, map[int32]struct{}{})
+}
